@@ -367,6 +367,7 @@ int main(int argc, char** argv)
     for (int64_t c = from; c < to; ++c)
     {
         emit(J().kv("t", "case_begin").kv("case", c).str());
+        arm_case_watchdog(40);
         e.case_no = c;
         out().viol_in_case = 0;
         out().soft_in_case = 0;
